@@ -415,11 +415,12 @@ type regIn struct {
 	Write  bool
 	Key    string
 	Arg    string
+	Ord    int // position among this client's checked operations on this key
 }
 
 type regState struct {
 	Val  string
-	Last [4]int16 // per client: last applied sequence number + 1 (0 = none)
+	Last [4]int16 // per client: number of its operations on this key applied so far
 }
 
 var regModel = porcupine.Model{
@@ -444,11 +445,15 @@ var regModel = porcupine.Model{
 	Step: func(st, in, out interface{}) (bool, interface{}) {
 		s := st.(regState)
 		i := in.(regIn)
-		if int16(i.Seq) < s.Last[i.Client] {
-			return false, s // per-connection program order
+		// per-connection program order: exactly the client's next operation on this key
+		// (equivalent to "never an earlier one after a later one" because every operation
+		// has to be placed, but it prunes the dead ends at once instead of at the end of
+		// an exponential search)
+		if int16(i.Ord) != s.Last[i.Client] {
+			return false, s
 		}
 		ns := s
-		ns.Last[i.Client] = int16(i.Seq) + 1
+		ns.Last[i.Client] = int16(i.Ord) + 1
 		if i.Write {
 			ns.Val = i.Arg
 			return true, ns
@@ -492,13 +497,13 @@ func c10register(c *Check, rng *rand.Rand) {
 			c.Violate(Violation{Class: "proxy-died", Shape: "register-workload", Detail: env.P.PanicLine()})
 			return
 		}
-		nclients := 2 + rng.Intn(2)
+		nclients := 2 + rng.Intn(3)
 		nkeys := 1 + rng.Intn(3)
 		keys := make([]string, nkeys)
 		for i := range keys {
 			keys[i] = Key(rng.Intn(16384), fmt.Sprintf("reg%d.%d", rd, i))
 		}
-		opsPer := 4 + rng.Intn(9)
+		opsPer := 4 + rng.Intn(c.Pick(9, 25))
 		pause := rd%3 == 2
 		type sent struct {
 			in   regIn
@@ -560,7 +565,13 @@ func c10register(c *Check, rng *rand.Rand) {
 				complete = false
 			}
 			s := cl.Snapshot()
+			ord := map[string]int{}
 			for i, sn := range all[ci] {
+				if i >= len(s.Replies) && !sn.in.Write {
+					continue // an unanswered read constrains nothing
+				}
+				sn.in.Ord = ord[sn.in.Key]
+				ord[sn.in.Key]++
 				op := porcupine.Operation{ClientId: ci, Input: sn.in, Call: sn.call}
 				if i < len(s.Replies) {
 					v := s.Replies[i].Val
@@ -576,9 +587,6 @@ func c10register(c *Check, rng *rand.Rand) {
 					// unanswered: may take effect any time until the end of the history
 					op.Return = Tick() + 1<<40
 					op.Output = ""
-					if !sn.in.Write {
-						continue // an unanswered read constrains nothing
-					}
 				}
 				ops = append(ops, op)
 			}
